@@ -674,6 +674,49 @@ class Exec:
             st.niter += 1
             st.iters[st.niter] = 0
             return [(st, ('hiter', st.niter, a[0]))]
+        if re.search(r' as Iterator>::filter::<', n) and isinstance(a[0], tuple) and a[0] and a[0][0] in ('hiter', 'miter'):
+            return [(st, ('hfilter', a[0], a[1]))]
+        m = re.search(r'^<(?:std::iter::)?Filter<.*> as Iterator>::(min|max|min_by_key|max_by_key)(?:::<.*>)?$', n)
+        if m and isinstance(a[0], tuple) and a[0] and a[0][0] == 'hfilter':
+            # the extremum of the matching elements under the (key) order: the order is abstracted to an INJECTIVE rank on the
+            # compared strings (any total order), so the result does not depend on the iteration order; elements whose keys are
+            # equal cannot be told apart by the order and both remain possible (min_by_key returns the first in iteration order)
+            it, clo = a[0][1], a[0][2]
+            els = self.coll(it[2], st)
+            if els is None:
+                raise Unsupported('min/max on an unmodelled collection')
+            if it[0] == 'miter':
+                els = [('tuple', [k, v]) for (k, v) in els]
+            rank = z3.Function('elem_rank', z3.StringSort(), z3.IntSort())
+            sign = 1 if m.group(1).startswith('min') else -1
+            bykey = m.group(1).endswith('_by_key')
+
+            def keys_of(e, s0):
+                if not bykey:
+                    return [(s0, self.as_str(e))]
+                return [(s1, self.as_str(k)) for (s1, k) in self.invoke(a[1], [e], s0)]
+            states = [(st.copy(), None, None)]
+            for e in els:
+                nxt = []
+                for (s0, best, bkey) in states:
+                    for (s2, r) in self.invoke(clo, [e], s0):
+                        rs = z3.simplify(r) if z3.is_expr(r) else r
+                        if z3.is_false(rs):
+                            nxt.append((s2, best, bkey)); continue
+                        if not z3.is_true(rs):
+                            raise Unsupported('filter predicate did not fork to a constant')
+                        for (s3, es) in keys_of(e, s2):
+                            if best is None:
+                                nxt.append((s3, e, es)); continue
+                            inj = z3.Implies(rank(es) == rank(bkey), es == bkey)
+                            for cond, nb, nk in ((sign * rank(es) < sign * rank(bkey), e, es), (sign * rank(bkey) < sign * rank(es), best, bkey),
+                                                 (es == bkey, e, es), (es == bkey, best, bkey)):
+                                c = [cond, inj]
+                                if self.feasible(s3.pc + c):
+                                    s4 = s3.copy(); s4.pc += c
+                                    nxt.append((s4, nb, nk))
+                states = nxt
+            return [(s0, ('enum', 'Option', 'Some', [b_]) if b_ is not None else ('enum', 'Option', 'None', [])) for (s0, b_, _k) in states]
         m = re.search(r' as Iterator>::find::<', n)
         if m:
             it, clo = a[0], a[1]
